@@ -106,7 +106,7 @@ def _cells(arr):
 
 
 def _rational(d, mask):
-    """Cells as exact small rationals num/den (den <= 1000) when every
+    """Cells as exact small rationals num/den (den <= 100) when every
     unmasked float is within 2e-6 relative of one; None otherwise."""
     from fractions import Fraction
     if d.dtype.kind != 'f':
@@ -119,7 +119,7 @@ def _rational(d, mask):
             continue
         if x != x or x in (float('inf'), float('-inf')) or abs(x) > 1e6:
             return None
-        fr = Fraction(x).limit_denominator(1000)
+        fr = Fraction(x).limit_denominator(100)
         if abs(float(fr) - x) > 2e-6 * max(1.0, abs(x)):
             return None
         if abs(fr.numerator) > BIG:
